@@ -40,9 +40,13 @@ EXTENDS Integers, Sequences, FiniteSets, TLC
 
 CONSTANTS Writers, Subs, Ids, MaxV,
           Programs,            \* set of call records a writer may be given
-          SubKinds,            \* set of [uo : BOOLEAN] records a subscriber may be given
+          SubKinds,            \* set of [uo : BOOLEAN, lossy : BOOLEAN] records a subscriber may be given
           InitStores,          \* set of initial contents [Ids -> -1..MaxV]
-          PublishAfterUnlock, CreatedRevalidated
+          PublishAfterUnlock, CreatedRevalidated,
+          SubSer               \* TRUE: a subscription that takes a snapshot holds the publication mutex while it takes
+                               \* the snapshot and registers (no write is between commit and publication then);
+                               \* FALSE = the pinned code: a change can be both in the snapshot and delivered, and a
+                               \* lossy subscriber merging that duplicate add with a later remove keeps a deleted item
 
 Absent == -1
 NoW == 0
@@ -81,7 +85,7 @@ Init ==
   /\ pc = [w \in Writers |-> "start"]
   /\ loc = [w \in Writers |-> [old |-> Absent, ver |-> 0, created |-> FALSE, new |-> Absent, attempt |-> 0,
                                err |-> "none", ret |-> Absent]]
-  /\ pub = [w \in Writers |-> [id |-> CHOOSE i \in Ids : TRUE, v |-> Absent, seq |-> 0, targets |-> <<>>]]
+  /\ pub = [w \in Writers |-> [id |-> CHOOSE i \in Ids : TRUE, v |-> Absent, seq |-> 0, add |-> FALSE, targets |-> <<>>]]
   /\ lsn = <<>>
   /\ kind \in [Subs -> SubKinds]
   /\ spc = [s \in Subs |-> "idle"]
@@ -149,7 +153,8 @@ Commit(w) ==
        ELSE /\ store' = [store EXCEPT ![c.id] = [v |-> loc[w].new, ver |-> nextVer]]
             /\ nextVer' = nextVer + 1
             /\ commitLog' = Append(commitLog, [w |-> w, id |-> c.id, pre |-> cur.v, post |-> loc[w].new])
-            /\ pub' = [pub EXCEPT ![w] = [id |-> c.id, v |-> loc[w].new, seq |-> Len(commitLog) + 1, targets |-> <<>>]]
+            /\ pub' = [pub EXCEPT ![w] = [id |-> c.id, v |-> loc[w].new, seq |-> Len(commitLog) + 1,
+                                           add |-> (cur.v = Absent), targets |-> <<>>]]
             /\ loc' = [loc EXCEPT ![w].ret = loc[w].new]
             /\ pc' = [pc EXCEPT ![w] = "pubsnap"]
             /\ UNCHANGED mu
@@ -169,13 +174,28 @@ PubSnap(w) ==
             /\ UNCHANGED <<loc, mu>>
   /\ UNCHANGED <<store, nextVer, prog, lsn, kind, spc, snap, fwd, view, seen, commitLog>>
 
+\* A subscriber without backpressure has a lossy stage between the bus and its forwarder: the stage always
+\* takes the event; what the forwarder already holds (head of q) stays, behind it at most one pending change
+\* per id is kept (a newer one replaces it and moves to the back; an add that is removed before anybody
+\* saw it disappears).
+Pipe(q, e) ==
+  IF q = <<>> THEN <<e>>
+  ELSE LET held == Head(q)  rest == Tail(q)
+           same == SelectSeq(rest, LAMBDA x : x.id = e.id)
+           others == SelectSeq(rest, LAMBDA x : x.id # e.id)
+       IN IF same # <<>> /\ same[1].add /\ e.v = Absent THEN <<held>> \o others
+          ELSE <<held>> \o others \o <<[e EXCEPT !.add = IF same # <<>> THEN same[1].add ELSE e.add]>>
+
 \* rendezvous with the forwarder of the next listener: only when it is waiting for the bus
+\* (or, for a lossy subscriber, always: the stage takes it)
 Deliver(w) ==
-  LET s == Head(pub[w].targets) IN
+  LET s == Head(pub[w].targets)
+      e == [id |-> pub[w].id, v |-> pub[w].v, seq |-> pub[w].seq, add |-> pub[w].add] IN
   /\ pc[w] \in {"deliver", "ddeliver"} /\ pub[w].targets # <<>>
-  /\ fwd[s].st = "wait"
+  /\ kind[s].lossy \/ fwd[s].st = "wait"
   /\ Step("Deliver", w)
-  /\ fwd' = [fwd EXCEPT ![s] = [st |-> "hold", q |-> <<[id |-> pub[w].id, v |-> pub[w].v, seq |-> pub[w].seq]>>]]
+  /\ fwd' = [fwd EXCEPT ![s] = [st |-> IF fwd[s].st = "wait" THEN "hold" ELSE fwd[s].st,
+                                 q |-> IF kind[s].lossy THEN Pipe(fwd[s].q, e) ELSE <<e>>]]
   /\ pub' = [pub EXCEPT ![w].targets = Tail(pub[w].targets)]
   /\ IF Len(pub[w].targets) = 1 THEN EndPublish(w) ELSE UNCHANGED <<pc, loc, mu>>
   /\ UNCHANGED <<store, nextVer, prog, lsn, kind, spc, snap, view, seen, commitLog>>
@@ -225,7 +245,7 @@ DLock(w) ==
             /\ IF lsn = <<>>
                  THEN /\ pc' = [pc EXCEPT ![w] = "done"] /\ UNCHANGED <<pub, mu>>
                       /\ loc' = [loc EXCEPT ![w].ret = cur.v, ![w].err = "OK"]
-                 ELSE /\ pub' = [pub EXCEPT ![w] = [id |-> c.id, v |-> Absent, seq |-> Len(commitLog) + 1, targets |-> lsn]]
+                 ELSE /\ pub' = [pub EXCEPT ![w] = [id |-> c.id, v |-> Absent, seq |-> Len(commitLog) + 1, add |-> FALSE, targets |-> lsn]]
                       /\ pc' = [pc EXCEPT ![w] = "ddeliver"]
                       /\ loc' = [loc EXCEPT ![w].ret = cur.v]
                       /\ mu' = Take(w, [mu EXCEPT !.w = w])  \* Delete sends while holding the write lock
@@ -236,12 +256,14 @@ DLock(w) ==
 
 Contents == [i \in Ids |-> store[i].v]
 
+\* (a subscriber holding the publication mutex is recorded as -s in mu.ser)
 SubSnap(s) ==
   /\ spc[s] = "idle" /\ (kind[s].uo \/ mu.w = NoW)
+  /\ (SubSer /\ ~kind[s].uo /\ ~PublishAfterUnlock => mu.ser = NoW)
   /\ Step("SubSnap", s)
   /\ spc' = [spc EXCEPT ![s] = "snapped"]
   /\ IF kind[s].uo THEN UNCHANGED <<mu, snap>>
-     ELSE /\ mu' = [mu EXCEPT !.r = mu.r \cup {s}]
+     ELSE /\ mu' = [mu EXCEPT !.r = mu.r \cup {s}, !.ser = IF SubSer /\ ~PublishAfterUnlock THEN 0 - s ELSE mu.ser]
           /\ snap' = [snap EXCEPT ![s] = Contents]
   /\ UNCHANGED <<store, nextVer, prog, pc, loc, pub, lsn, kind, fwd, view, seen, commitLog>>
 
@@ -249,14 +271,14 @@ SubSnap(s) ==
 RECURSIVE SeedSeq(_, _)
 SeedSeq(S, m) == IF S = {} THEN <<>>
                  ELSE LET i == CHOOSE x \in S : \A y \in S : x <= y IN
-                      (IF m[i] = Absent THEN <<>> ELSE <<[id |-> i, v |-> m[i], seq |-> 0]>>) \o SeedSeq(S \ {i}, m)
+                      (IF m[i] = Absent THEN <<>> ELSE <<[id |-> i, v |-> m[i], seq |-> 0, add |-> TRUE]>>) \o SeedSeq(S \ {i}, m)
 
 SubListen(s) ==
   /\ spc[s] = "snapped"
   /\ Step("SubListen", s)
   /\ spc' = [spc EXCEPT ![s] = "open"]
   /\ lsn' = Append(lsn, s)
-  /\ mu' = [mu EXCEPT !.r = mu.r \ {s}]
+  /\ mu' = [mu EXCEPT !.r = mu.r \ {s}, !.ser = IF mu.ser = 0 - s THEN NoW ELSE mu.ser]
   /\ LET seeds == IF kind[s].uo THEN <<>> ELSE SeedSeq(Ids, snap[s]) IN
      fwd' = [fwd EXCEPT ![s] = [st |-> IF seeds = <<>> THEN "wait" ELSE "seeding", q |-> seeds]]
   /\ UNCHANGED <<store, nextVer, prog, pc, loc, pub, kind, snap, view, seen, commitLog>>
@@ -268,7 +290,11 @@ Recv(s) ==
   /\ LET e == Head(fwd[s].q) IN
      /\ view' = [view EXCEPT ![s][e.id] = e.v]
      /\ seen' = [seen EXCEPT ![s][e.id] = TRUE]
-     /\ fwd' = [fwd EXCEPT ![s] = [st |-> IF Len(fwd[s].q) = 1 THEN "wait" ELSE fwd[s].st, q |-> Tail(fwd[s].q)]]
+     /\ fwd' = [fwd EXCEPT ![s] = [st |-> IF Len(fwd[s].q) = 1 THEN "wait"
+                                          ELSE IF fwd[s].st = "seeding" /\ ~Head(Tail(fwd[s].q)).add THEN "hold"
+                                          ELSE IF fwd[s].st = "seeding" /\ Head(Tail(fwd[s].q)).seq # 0 THEN "hold"
+                                          ELSE fwd[s].st,
+                                   q |-> Tail(fwd[s].q)]]
   /\ UNCHANGED <<store, nextVer, mu, prog, pc, loc, pub, lsn, kind, spc, snap, commitLog>>
 
 ----------------------------------------------------------------------------
@@ -314,5 +340,6 @@ Converged == AllDone => \A s \in Subs : Drained(s) =>
 \* nothing committed after the subscriber registered is missed: it is delivered or pending
 NoLock == mu.w = NoW \/ pc[mu.w] \in {"deliver", "ddeliver", "pubsnap"}
 TypeOK == /\ mu.w \in Writers \cup {NoW} /\ mu.r \subseteq Subs /\ NoLock
-          /\ mu.ser \in Writers \cup {NoW} /\ (mu.ser # NoW => pc[mu.ser] # "done")
+          /\ mu.ser \in Writers \cup {NoW} \cup { 0 - s : s \in Subs }
+          /\ (mu.ser \in Writers => pc[mu.ser] # "done")
 =============================================================================
